@@ -586,3 +586,84 @@ func TestC01SenderDies(t *testing.T) {
 		}
 	}
 }
+
+// TestC01TwoPairs: two library<->library connections alive in one process. The first one
+// negotiates context takeover and exchanges a message; then a second one is negotiated with
+// other compression modes (its handshake must not reach into the first one's agreement); then the
+// first one exchanges a message that repeats the earlier content, so that the sender's
+// compressor refers back to it - the receiver can only follow if both ends still hold the
+// parameters they agreed on. Every message arrives as written. Enumerated: modes of the second
+// pair x direction x who is opened first.
+func TestC01TwoPairs(t *testing.T) {
+	rec := evid.For("C01")
+	for _, m1 := range []websocket.CompressionMode{websocket.CompressionContextTakeover, websocket.CompressionNoContextTakeover} {
+		for _, cl2 := range c01Modes {
+			for _, sv2 := range c01Modes {
+				desc := fmt.Sprintf("twopairs|first=%s|second=%s/%s", modeName(m1), modeName(cl2), modeName(sv2))
+				var msg string
+				synctest.Test(t, func(t *testing.T) {
+					e := newEnv(t)
+					defer e.Teardown()
+					p1, err := e.openPair(pairSpec{ClMode: m1, SvMode: m1, ClThreshold: 64, SvThreshold: 64})
+					if err != nil {
+						msg = "handshake of the first pair: " + err.Error()
+						return
+					}
+					ctx := context.Background()
+					xfer := func(name string, from, to *websocket.Conn, payload []byte) string {
+						var werr, rerr error
+						var got []byte
+						wd := e.Call(func() { werr = from.Write(ctx, websocket.MessageText, payload) })
+						rd := e.Call(func() { _, got, rerr = to.Read(ctx) })
+						if !within(wd, 30*time.Second) || !within(rd, 30*time.Second) {
+							return name + ": the exchange did not finish"
+						}
+						if werr != nil || rerr != nil {
+							return fmt.Sprintf("%s: write err=%v, read err=%v", name, werr, rerr)
+						}
+						if !bytes.Equal(got, payload) {
+							return fmt.Sprintf("%s: %d bytes arrived, %d written; first difference at %d", name, len(got), len(payload), firstDiff(got, payload))
+						}
+						return ""
+					}
+					a := expand(ckText, 41, 3000)
+					for _, d := range []struct {
+						n        string
+						from, to *websocket.Conn
+					}{{"first pair, client->server, first message", p1.Cl, p1.Sv}, {"first pair, server->client, first message", p1.Sv, p1.Cl}} {
+						if m := xfer(d.n, d.from, d.to, a); m != "" {
+							msg = m
+							return
+						}
+					}
+					p2, err := e.openPair(pairSpec{ClMode: cl2, SvMode: sv2, ClThreshold: 64, SvThreshold: 64})
+					if err != nil {
+						msg = "handshake of the second pair: " + err.Error()
+						return
+					}
+					if m := xfer("second pair, client->server", p2.Cl, p2.Sv, expand(ckText, 43, 2000)); m != "" {
+						msg = m
+						return
+					}
+					b := append(append([]byte("again: "), a[:2500]...), " and once more"...)
+					for _, d := range []struct {
+						n        string
+						from, to *websocket.Conn
+					}{{"first pair, client->server, a message that repeats the first (after the second pair was negotiated)", p1.Cl, p1.Sv}, {"first pair, server->client, a message that repeats the first (after the second pair was negotiated)", p1.Sv, p1.Cl}} {
+						if m := xfer(d.n, d.from, d.to, b); m != "" {
+							msg = m
+							return
+						}
+					}
+					if m := xfer("second pair, server->client", p2.Sv, p2.Cl, expand(ckText, 43, 2100)); m != "" {
+						msg = m
+					}
+				})
+				rec.Case(true, desc, "two-pairs-alive-with-different-compression-modes")
+				if msg != "" {
+					failCase(t, "C01", desc, "%s", msg)
+				}
+			}
+		}
+	}
+}
